@@ -188,11 +188,13 @@ PROPERTIES = {
              'printers denote the same function on non-excluded operands; runtime libraries, string constants, Vec are not covered',
   },
   'C06': {
-    'verus': ['litgate'],
+    'verus': ['litgate', 'errgate'],
     'kani': [],
     'level': 'proof',
-    'scope': 'one clause only: an integer literal outside the 32-bit range is reported (TokenProducer::process_raw_token); '
-             'every checker-side clause of C06 (types, arity, resolution, visibility, conformance, exhaustiveness) is not covered',
+    'scope': 'two kernels only: an integer literal outside the 32-bit range is reported (TokenProducer::process_raw_token); an error '
+             'once reported stays in the ErrorSet (report_error, merge), has_errors sees it, and compile_sources returns Err before '
+             'any code is produced; every checker-side clause of C06 (types, arity, resolution, visibility, conformance, '
+             'exhaustiveness: that the error IS reported) is not covered',
   },
   'C08': {
     'verus': ['paren', 'strlit', 'lexer'],
@@ -261,6 +263,9 @@ STANDING_ASSUMPTIONS = {
     'the induction variable is compared over mathematical integers; the in-range clause makes that equal to the wrapping run',
   ],
   'algebra': ['Verus/Z3 nonlinear arithmetic; vstd specs of i32::wrapping_mul / wrapping_add'],
+  'errgate': ['Verus/Z3; vstd specification of std BTreeSet (new / insert / is_empty); the derived Ord of CompileTimeError is assumed to '
+              'be a total order (obeys_cmp); BTreeSet::extend = union (R3); Location, ErrorDetail opaque; everything compile_sources does '
+              'around the gate is outside the block (R14)'],
   'strlit': ['Verus/Z3; std str::replace for the two literal patterns is modelled by unesc / esc on character sequences (documented '
              'behaviour: leftmost non-overlapping occurrences); chars().collect_vec() and iter().collect::<String>() keep the characters; '
              'documents are abstracted to how they were built; the lexer clause is proved on bytes, the parser / printer clauses on chars '
